@@ -23,7 +23,8 @@ RULE = ("real archives: `small` (3 samples, compressed + stored-raw references, 
         "get_contig_range, get_contig_length, get_contig_segments_desc, get_segment_data_by_desc, get_all_segments, "
         "get_group_statistics, get_reference_segment) x first/last/second-batch/unknown sample, first/last/unknown "
         "contig, compressed-reference / stored-raw-reference / raw / unknown group, existing / out-of-range / unknown "
-        "descriptors. ALL sequences of length 3 (quick) / 4 (thorough) over a 26-op alphabet on each archive, random "
+        "descriptors. ALL sequences of length 3 over the 42-op alphabet and ALL of length 4 over 12 (quick) / 20 "
+        "(thorough) ops on each of the 3 archives (thorough: + length 3 over 26 ops on 17 random archives), random "
         "sequences of length 10-30 over 42 ops, cloned readers in 2-8 threads with yield_point perturbation while "
         "the parent keeps answering. Model side: the extracted ReaderState model on the abstract archive read from "
         "the real one predicts class AND full answer (hash) of both columns. non-trivial = a sequence with >= 2 ops "
@@ -56,8 +57,10 @@ FULL = ["ls", "lp:P0", "lp:PX", "cs", "lc:S0", "lc:SL", "lc:SB", "lc:SX", "gs:S0
         "gc:SL:CL", "gc:SB:C0", "gc:S0:CX", "gc:SX:C0", "gr:S0:C0:5:40", "gr:SL:CL:0:max", "gr:SB:C0:30:31", "gr:SX:C0:0:9",
         "gr:S0:CX:0:9", "gr:S0:C0:9:9", "gl:S0:C0", "gl:SL:CL", "gl:SX:CX", "gl:S0:CX", "sd:S0:C0", "sd:SL:CL", "sd:SX:C0",
         "sg:D0", "sg:DL", "sg:DD", "sg:DR", "sg:DX", "sg:DY", "as", "gst", "rs:GL", "rs:GW", "rs:GR", "rs:GX"]
+A12 = ["lc:S0", "gs:SL", "gs:SX", "gc:S0:CX", "gr:SL:CL:0:max", "as", "gst", "rs:GL", "rs:GW", "rs:GX", "sg:DD", "sg:DX"]
 SMALL4 = ["lc:S0", "gs:S0", "gs:SL", "gs:SX", "gc:SL:CL", "gc:S0:CX", "gr:SL:CL:0:max", "gl:SX:CX", "sd:S0:CX", "as",
           "gst", "rs:GL", "rs:GW", "rs:GX", "sg:DD", "sg:DX"]
+A20 = SMALL4 + ["ls", "gl:S0:C0", "sd:SL:CL", "rs:GR"]
 _STATE = {}
 
 
@@ -124,31 +127,28 @@ def gen_cases(rng, tier):
     # regressions first (each was a real failure before b430dd4 / d5b0008 / 709bfda)
     for d, p in main:
         cs.append(f"h {d} {p} gs:SX gs:SX / lc:S0 as / lc:S0 gst / rs:GW / gs:S0 rs:GW / rs:GW gs:S0 / rs:GW sg:D0 gs:S0 gc:S0:C0")
-    L = 3 if tier == "quick" else 4
-    per = 100 if tier == "quick" else 200
+    per = 200
     nseq = 0
     for d, p in main:
-        alpha = QA
-        seqs = [" ".join(s) for s in itertools.product(alpha, repeat=3)]
-        if L == 4:
-            seqs += [" ".join(s) for s in itertools.product(SMALL4, repeat=4)]
+        seqs = [" ".join(s) for s in itertools.product(FULL, repeat=3)]
+        seqs += [" ".join(s) for s in itertools.product(A12 if tier == "quick" else A20, repeat=4)]
         nseq += len(seqs)
         for ch in _chunks(seqs, per):
             cs.append(f"h {d} {p} " + " / ".join(ch))
     for d, p in extra:
-        seqs = [" ".join(s) for s in itertools.product(SMALL4, repeat=3)]
+        seqs = [" ".join(s) for s in itertools.product(QA, repeat=3)]
         nseq += len(seqs)
         for ch in _chunks(seqs, per):
             cs.append(f"h {d} {p} " + " / ".join(ch))
-    nrand = 150 if tier == "quick" else 3000
+    nrand = 300 if tier == "quick" else 3000
     for d, p in main + extra:
         seqs = [" ".join(rng.choice(FULL) for _ in range(rng.randint(10, 30))) for _ in range(nrand)]
         nseq += len(seqs)
         for ch in _chunks(seqs, 25):
             cs.append(f"h {d} {p} " + " / ".join(ch))
-    nthr = 25 if tier == "quick" else 400
-    for d, p in main + extra[:3]:
-        for _ in range(nthr):
+    nthr = 60 if tier == "quick" else 400
+    for j, (d, p) in enumerate(main + extra[:3]):
+        for _ in range(nthr if j < 3 else 100):
             par = " ".join(rng.choice(FULL) for _ in range(rng.randint(0, 4)))
             cs.append(f"t {d} {p} {rng.getrandbits(40) + 1} {rng.choice([2, 3, 4, 8])} {rng.randint(10, 30)} {par}".rstrip())
     _STATE["sequences"] = nseq
